@@ -292,6 +292,38 @@ pub fn run<G: AffineRepr>(curve: &str, ci: u64, seed: u64, tier: &str, out: &mut
                 let _ = writeln!(out, "BAD {} {} {} {}", curve, name, kind, code);
             }
         }
+        // two (or more) points of one encoding carry small-order components that cancel in any sum of the points
+        if curve == "curve25519" {
+            let mut yb = vec![0u8; 32];
+            let minus1 = -<G::BaseField as ark_ff::Field>::ONE;
+            minus1.serialize_compressed(&mut yb.as_mut_slice()).ok();
+            if let Ok(t2) = <G as ark_serialize::CanonicalDeserialize>::deserialize_compressed_unchecked(&yb[..]) {
+                let npt = 11 + parts.l.len() + parts.r.len();
+                let mut pairs: Vec<Vec<usize>> = vec![vec![0, 1], vec![2, 10], vec![0, npt - 1]];
+                pairs.push(vec![rng.gen_range(0..npt), rng.gen_range(0..npt)]);
+                pairs.push((0..npt).collect::<Vec<_>>().into_iter().take(npt - npt % 2).collect());
+                for pr_ in pairs {
+                    if pr_.len() == 2 && pr_[0] == pr_[1] { continue; }
+                    let mut p2 = proof_parts(proof);
+                    for &i in &pr_ {
+                        let x = if i < 11 { p2.points[i] } else if i < 11 + p2.l.len() { p2.l[i - 11] } else { p2.r[i - 11 - p2.l.len()] };
+                        let y = (x.into_group() + G::into_group(t2)).into_affine();
+                        if i < 11 { p2.points[i] = y } else if i < 11 + p2.l.len() { p2.l[i - 11] = y } else { let k = p2.l.len(); p2.r[i - 11 - k] = y }
+                    }
+                    let mut b2 = vec![];
+                    for x in &p2.points { x.serialize_compressed(&mut b2).unwrap(); }
+                    for x in &p2.scalars { x.serialize_compressed(&mut b2).unwrap(); }
+                    p2.l.serialize_compressed(&mut b2).unwrap();
+                    p2.r.serialize_compressed(&mut b2).unwrap();
+                    p2.a.serialize_compressed(&mut b2).unwrap();
+                    p2.b.serialize_compressed(&mut b2).unwrap();
+                    mark("bad:paired-torsion", &b2);
+                    let res = catch_unwind(AssertUnwindSafe(|| R1CSProof::<G>::from_bytes(&b2)));
+                    let code = match res { Ok(Ok(_)) => 0, Ok(Err(_)) => 2, Err(_) => 99 };
+                    let _ = writeln!(out, "BAD {} points{} cancelling-small-order-components {}", curve, pr_.iter().take(3).map(|x| x.to_string()).collect::<Vec<_>>().join("+"), code);
+                }
+            }
+        }
     }
     eprintln!("codec {:?}", t0.elapsed());
     // container codec against the model's decoder on honest, mis-framed, truncated, extended and corrupted inputs
